@@ -1,4 +1,8 @@
-name = "kv"
+#!/usr/bin/env python3
+"""Regenerate lean/lakefile.toml: fixed libs + one lean_exe drv_<X> per lean/Driver/<X>.lean."""
+import os
+V = os.path.dirname(os.path.dirname(os.path.abspath(__file__)))
+head = '''name = "kv"
 version = "0.1.0"
 defaultTargets = ["Model", "Generated", "Proofs", "Properties", "Driver"]
 
@@ -26,27 +30,14 @@ globs = ["Properties.+"]
 [[lean_lib]]
 name = "Driver"
 globs = ["Driver.+"]
-
-[[lean_exe]]
-name = "drv_C01"
-root = "Driver.C01"
-
-[[lean_exe]]
-name = "drv_C02"
-root = "Driver.C02"
-
-[[lean_exe]]
-name = "drv_C11"
-root = "Driver.C11"
-
-[[lean_exe]]
-name = "drv_C12"
-root = "Driver.C12"
-
-[[lean_exe]]
-name = "drv_C19"
-root = "Driver.C19"
-
-[[lean_exe]]
-name = "drv_C20"
-root = "Driver.C20"
+'''
+out = [head]
+for fn in sorted(os.listdir(os.path.join(V, "lean", "Driver"))):
+    if fn.endswith(".lean"):
+        x = fn[:-5]
+        src = open(os.path.join(V, "lean", "Driver", fn)).read()
+        if "def main" not in src:
+            continue
+        out.append('[[lean_exe]]\nname = "drv_%s"\nroot = "Driver.%s"\n' % (x, x))
+open(os.path.join(V, "lean", "lakefile.toml"), "w").write("\n".join(out))
+print("lakefile: %d drivers" % (len(out) - 1))
